@@ -543,3 +543,34 @@ def run(ctx: Ctx) -> None:
     ctx.extra["cron_occurrences"] = fired_total
     ctx.sample({"shape": trig[0][1]["shape"], "history": trig[0][1]["history"], "events": trig[0][0][:5]})
     ctx.note(f"{len(ctraces)} cron poll sequences ({sum(len(t) for t in ctraces)} polls, {fired_total} occurrences) validated by TLC in {r2.wall_s:.1f}s; flagged: {ncf}")
+
+
+def _tuples(h: Any) -> list[tuple]:
+    out = []
+    for x in h:
+        if x[0] == "par":
+            out.append(("par", [tuple(y) for y in x[1]]))
+        else:
+            out.append(tuple(x))
+    return out
+
+
+def replay(ctx: Ctx, data: dict[str, Any]) -> int:
+    """Re-run one recorded history (and schedule of its concurrent block) and let TLC judge it again."""
+    if data.get("kind") == "cron":
+        ev, _m = cron_run(data["family"], data)
+        verdicts, _ = tlc.validate_traces("CronTrace", "CronTrace.cfg", [ev], timeout=600)
+    else:
+        sch = data.get("schedule")
+        pol = None if sch is None else sched.Replay(sch) if isinstance(sch, list) else sched.seeded(int(str(sch)[4:]), 0.35)
+        ev, _info = run_history(data["family"], data["shape"], _tuples(data["history"]), pol)
+        verdicts, _ = tlc.validate_traces("TriggerTrace", "TriggerTrace.cfg", [ev], timeout=600)
+    v = verdicts[0]
+    for k, e in enumerate(ev, start=1):
+        mark = " <== " + ",".join(sorted({f for s_, f in v.flags if s_ == k})) if any(s_ == k for s_, _f in v.flags) else ""
+        print(f"  {k:3d} {json.dumps(e)[:260]}{mark}")
+    if v.flags:
+        print(f"VIOLATION property=C13 replay={ctx.prop}: formulas {sorted({f for _s, f in v.flags})}")
+        return 1
+    print("  the history no longer violates a formula")
+    return 0
